@@ -23,8 +23,19 @@ class Boom(ValueError):
     pass
 
 
-FLAVOURS = {"plain": "", "buffered": ' buffered="True"', "filter": ' filter="trim"', "cached": ' cached="True"', "buffered+filter": ' buffered="True" filter="trim"'}
-KINDS = ["strict", "default", "nsfetch"]
+class FalsyBoom(Boom):
+    """an exception whose instances are false in a boolean test (an empty collection of problems)"""
+
+    def __bool__(self):
+        return False
+
+    def __len__(self):
+        return 0
+
+
+FLAVOURS = {"plain": "", "buffered": ' buffered="True"', "filter": ' filter="trim"', "cached": ' cached="True"', "buffered+filter": ' buffered="True" filter="trim"',
+            "filter-n": ' filter="n"', "filter-n-n": ' filter="n, n"', "filter-n-trim": ' filter="n, trim"'}
+KINDS = ["strict", "default", "nsfetch", "mid", "mid-falsy"]
 PLACES = ["top", "nested"]  # (names read in a block are fetched when the ENCLOSING callable starts: no section to abandon)
 FORMS = ["expr", "capture", "calltag"]
 HANDLERS = ["try", "error_handler", "caller"]
@@ -91,6 +102,11 @@ def build(c):
     elif kind == "default":
         inner = '<%def name="deep(a=boom())">d</%def>F'
         exc = "Boom"
+    elif kind in ("mid", "mid-falsy"):
+        # the section has already written text when it fails: a section with a buffer of its own (buffered, filter=, cached)
+        # takes that text with it, a plain def has written it directly
+        inner = "F${boom()}"
+        exc = "Boom"
     else:
         inner = "F${nq.x()}"
         exc = "TemplateLookupException"
@@ -113,11 +129,12 @@ def build(c):
         return None  # a def cannot be nested in a block's tag body in every version: not generated
     trysite = "\\\n% try:\n" + call + "\\\n% except Exception as zz:\nC\\\n% endtry\n" if h == "try" else call
     files["/main.html"] = head + "s(" + trysite + ")e|${g()}" + '<%def name="g()">G</%def>' + defs
-    exp = ("s(o[C)e|G" if place == "nested" else "s(C)e|G") if h == "try" else None
+    direct = "F" if (kind in ("mid", "mid-falsy") and fl == "plain" and form != "capture") else ""
+    exp = ("s(o[" + direct + "C)e|G" if place == "nested" else "s(" + direct + "C)e|G") if h == "try" else None
     if h == "error_handler":
-        exp = "s("  # the handler ends the render: what was written directly before the failure stays
+        exp = "s(" + direct  # the handler ends the render: what was written directly before the failure stays
         if place == "nested":
-            exp = "s(o["
+            exp = "s(o[" + direct
     return files, kw, exp, exc
 
 
@@ -136,13 +153,16 @@ def run(c):
     seen = []
 
     def boom():
-        e = Boom("planted")
+        e = (FalsyBoom if c["kind"] == "mid-falsy" else Boom)("planted")
         seen.append(e)
         raise e
 
     def eh(context, error):
         seen.append(("handled", error))
         return True
+
+    def given_to_handler():
+        return [x[1] for x in seen if isinstance(x, tuple) and x[0] == "handled"]
 
     lkw = dict(kw)
     if h == "error_handler":
@@ -175,6 +195,11 @@ def run(c):
         elif h in ("try", "include_error_handler") or (h == "error_handler"):
             if out[0] != "ok":
                 return ("prologue:%s:handled but %s escapes" % (what, type(out[1]).__name__), "an exception handled by %s leaves a consistent render" % h, exp, "%s: %s" % (type(out[1]).__name__, str(out[1])[:100]))
+            if h in ("error_handler", "include_error_handler") and excname == "Boom":
+                raised = [x for x in seen if isinstance(x, Boom)]
+                got_ = given_to_handler()
+                if raised and got_ and got_[0] is not raised[0]:
+                    return ("prologue:%s:handler is not given the exception object" % what, "the handler receives the exception that was raised", repr(raised[0]), repr(got_[0]))
             if h == "error_handler":
                 if not out[1].startswith(exp):
                     return ("prologue:%s:output before the failure lost" % what, "text written directly before the failing section stays", exp + "...", out[1])
